@@ -1,7 +1,7 @@
 (** C13 - persisting is incremental, writes no garbage, and clean means unchanged.
     Statements only; proofs are in Persist.v / Hist.v. *)
 From Coq Require Import List NArith ZArith Bool.
-From Mast Require Import Prim Key Tree KeyOrder Codec Store Diff World Erase Build Spec Canon Links Level Inv Hist Persist Reload DiffLinks PersistCount.
+From Mast Require Import Prim Key Tree KeyOrder Codec Store Diff World Erase Build Spec Canon Links Level Inv Hist Persist Reload DiffLinks PersistCount WorldInv Clean CleanHist.
 Import ListNotations.
 
 (** persisting a tree that was not modified since it was loaded or persisted writes nothing at all
@@ -40,11 +40,44 @@ Proof.
   inversion Hc as [? ? ? ? _ _ Hcl]; subst. exact (Hcl eq_refl h eq_refl).
 Qed.
 
+(** "A tree reports itself clean only if its contents equal that version."
+    Every change leaves the tree reporting dirty: an Insert that succeeds returns the very same tree
+    (same value already there) or a tree with a freshly built (dirty) root, also after growing; a
+    Delete that succeeds always does, also after shrinking and when the tree becomes empty. *)
+Section DIRTY.
+Variables (K V : Type) (cmp : K -> K -> comparison) (veq : V -> V -> bool) (layer : K -> nat).
+Theorem C13_insert_leaves_dirty : forall (m : mast K V) k v,
+  okp (insert _ _ cmp veq layer m k v) (fun m' => m' = m \/ is_dirty _ _ m' = true).
+Proof. exact (insert_dirty K V cmp veq layer). Qed.
+Hypothesis cmp_eq : forall a b, cmp a b = Eq <-> a = b.
+Hypothesis cmp_antisym : forall a b, cmp b a = CompOpp (cmp a b).
+Hypothesis cmp_trans : forall a b c, cmp a b = Lt -> cmp b c = Lt -> cmp a c = Lt.
+Hypothesis veq_eq : forall x y, veq x y = true <-> x = y.
+Hypothesis layer_bound : forall k, layer k < max_layer_fuel.
+Theorem C13_delete_leaves_dirty : forall bf (m : mast K V) l k v,
+  canon K V cmp layer bf m l -> Spec.lookup K V cmp k l = Some v ->
+  okp (delete _ _ cmp veq layer m k v) (fun m' => is_dirty _ _ m' = true).
+Proof. exact (delete_dirty K V cmp veq layer cmp_eq cmp_antisym cmp_trans veq_eq layer_bound). Qed.
+End DIRTY.
+
+(** ... hence, in every world reached by a history (new / insert / delete / clone / persist / reload /
+    reads, any number of trees and stores; side conditions [conds]): a tree that reports itself clean
+    has exactly the contents it had when it was created, loaded or last persisted ([brun] tracks that
+    version per tree) *)
+Theorem C13_clean_means_unchanged : forall ops t tr x,
+  conds empty_world ([], []) ops ->
+  aget (w_trees (wrun empty_world ops)) t = Some tr -> aget (fst (awrun2 ([], []) ops)) t = Some x ->
+  is_dirty _ _ (t_m tr) = false -> bget (brun [] ([], []) ops) t = Some (at_l x).
+Proof. exact clean_means_unchanged. Qed.
+
 (** PARTIAL: that the unsaved nodes are only those whose key range holds a modified key, and at most
     2*height+2 of them per modified key, is decided by the oracle on the implementation's recorded
     Store calls (tools/oracle.py check_persist) and by the one-sided correspondence of store names
     with the model; it is not proved as a theorem yet. *)
 Print Assumptions C13_noop.
+Print Assumptions C13_insert_leaves_dirty.
+Print Assumptions C13_delete_leaves_dirty.
+Print Assumptions C13_clean_means_unchanged.
 Print Assumptions C13_writes_exactly_the_unsaved_nodes.
 Print Assumptions C13_clean_root_is_the_stored_version.
 Print Assumptions C13_writes_named.
